@@ -262,6 +262,7 @@ fn run_trees<P: ExecProp + ?Sized>(p: &P, sut: &dyn Sut, run: &mut Run, stats: &
         };
         let max_steps = if std::env::var("VERIF_NO_SHRINK").is_ok() { 0 } else { 60 };
         let best = shrink_tree(&mut *sampled.trees[i], max_steps, &mut |c| eval_single(p, sut, c).is_some());
+        let best = if max_steps > 0 { zero_chunks(&best, 24, &mut |c| eval_single(p, sut, c).is_some()) } else { best };
         let msg = eval_single(p, sut, &best).unwrap_or(m_iso);
         let mut st = Stats::new();
         let body = match p.build(&best, &mut st) {
